@@ -26,6 +26,7 @@ From V Require Import Gen.Consts Model.Caps.
 From V Require Import Gen.Special Model.Special Spec.Triggers.
 From V Require Import Gen.RtOutc Spec.RoundTrip.
 From V Require Import Model.RefDef Model.Blocks.
+From V Require Import Model.Inlines.
 Extraction Language OCaml.
 Set Extraction KeepSingleton.
 
@@ -304,4 +305,10 @@ Extraction "model.ml"
   Blocks.mkBO
   Blocks.to_node
   RefDef.parse_reference_inline
+  Inlines.run_inlines
+  Inlines.postprocess_block
+  Inlines.mkIO
+  Inlines.mkOracle
+  Inlines.fn_resolve
+  Inlines.refdefs
 .
